@@ -120,7 +120,9 @@ func (a *allocation) refreshAllocation(lifetime time.Duration, dontWait bool) er
 }
 
 func (a *allocation) refreshPermissions() error {
-	addrs := a.permMap.addrs()
+	// Entries that are still being requested are left out: if the server refuses
+	// one of them, it would refuse the whole refresh with it.
+	addrs := a.permMap.permittedAddrs()
 	if len(addrs) == 0 {
 		a.log.Debug("No permission to refresh")
 
